@@ -331,8 +331,25 @@ class F(_AbstractNativeDataType):
     def _as_packable(self, k):  # identity
         return k
 
+    def __call__(self, item):
+        result = super().__call__(item)
+        # A finite number beyond the range of a 32-bit float is out of
+        # range like an integer beyond the range of a 32-bit int (the
+        # native struct format packs it as infinity without complaint).
+        if (
+            result - result == 0.0 and
+            self._check_native(result)[-4:] in _PACKED_INFINITIES
+        ):
+            raise TypeError("Value out of range", item)
+        return result
+
     def getTwoExamples(self):
         return 0.5, 1.5
+
+
+_PACKED_INFINITIES = (
+    struct.pack('f', float('inf')), struct.pack('f', float('-inf'))
+)
 
 
 class L(_AbstractIntDataType):
